@@ -453,6 +453,7 @@ def class_programs(rep: Report, rng: Rng):
 
 def run(rep: Report):
     rng = Rng(rep.seed * 1000003 + 5)
+    from .. import opscheck; opscheck.check_ops(rep, ["curve"])
     deadline = time.time() + budget(rep.tier, 48, 800)
     check_cases(rep, all_cases(rng, rep.tier), "functional", deadline)
     class_programs(rep, Rng(rep.seed * 1000003 + 55))
